@@ -669,18 +669,23 @@ def run_smoke(drv, case) -> Outcome:
             from pulser_simulation import QutipState
 
             v = np.array([mc.uncq(x) for x in case["init"]], dtype=complex)
-            dd, nn = 2, int(spec["n"])          # ground-rydberg only: two levels [r, g]
+            # levels of the emulation, in its documented order: (r, g), or (r, g, h) when a Raman channel is used too
+            emu_eig = ("r", "g", "h") if any(sg.get("ch") == "ram" for sg in spec["segments"]) else ("r", "g")
+            dd, nn = len(emu_eig), int(spec["n"])
             if v.size == dd**nn:
-                init = qutip.Qobj(v.reshape(-1, 1), dims=[[dd] * nn, [1] * nn])      # amplitudes on (r, g)
+                init = qutip.Qobj(v.reshape(-1, 1), dims=[[dd] * nn, [1] * nn])      # amplitudes on emu_eig
                 emu.set_initial_state(init)
-                init_v2, init_eig = init, ("r", "g")
-                if case.get("init_eig") == ["g", "r"]:
-                    # the same physical state written on the eigenstates (g, r): every digit flipped
-                    w = v.reshape([2] * nn)
+                init_v2, init_eig = init, emu_eig
+                want_eig = tuple(case.get("init_eig") or emu_eig)
+                if want_eig != emu_eig and sorted(want_eig) == sorted(emu_eig):
+                    # the same physical state written on the eigenstates in another order: the amplitude of
+                    # every label stays, the digit that stands for it changes
+                    idx = [emu_eig.index(lab) for lab in want_eig]
+                    w = v.reshape([dd] * nn)
                     for ax in range(nn):
-                        w = np.flip(w, axis=ax)
+                        w = np.take(w, idx, axis=ax)
                     init_v2 = qutip.Qobj(w.reshape(-1, 1), dims=[[dd] * nn, [1] * nn])
-                    init_eig = ("g", "r")
+                    init_eig = want_eig
         legacy = emu.run()
         random_noise = bool(noise and any(k in noise for k in ("temperature", "amp_sigma", "state_prep_error")))
         out.evaluations += 1
@@ -858,9 +863,16 @@ def gen_smoke(rng) -> dict:
     elif label == "critical-T":
         segs = [dict(ch="ryd", dur=rng.choice([52, 104, 208, 72]), amp=amp, det=0.0, phase=0.0)]
     elif label == "initial-state":
-        case["init"] = flat_of(product_state(rng, 2, n))
         if rng.random() < 0.5:
-            case["init_eig"] = ["g", "r"]
+            # three levels (r, g, h): the state may be given on any ordering of them (cyclic ones included)
+            segs.append(dict(ch="ram", dur=rng.choice([52, 100]), amp=amp, det=0.0))
+            case["init"] = flat_of(product_state(rng, 3, n))
+            case["init_eig"] = rng.choice([["r", "g", "h"], ["g", "h", "r"], ["h", "r", "g"], ["g", "r", "h"],
+                                           ["h", "g", "r"], ["r", "h", "g"]])
+        else:
+            case["init"] = flat_of(product_state(rng, 2, n))
+            if rng.random() < 0.5:
+                case["init_eig"] = ["g", "r"]
     elif label == "full-times":
         segs = [dict(ch="ryd", dur=rng.choice([52, 100]), amp=amp, det=0.0, phase=0.0)]
         case["eval_full"] = True
